@@ -2,11 +2,30 @@
 
 NODOT = "forall('m', implies(0 <= m and m < len(resolved), resolved[m] != '..' and resolved[m] != '../' and resolved[m] != '.' and resolved[m] != './'), resolved[m])"
 
+# add_query_argument (C20): "appends exactly one item ... leaving every existing item and the fragment in place", as a case formula over the first '#'
+# and the first '?' (str.split with maxsplit=1): the fragment is what follows the first '#', the query what follows the first '?' before it
+AQA_NAME = "ite(quote, uf('quote', 'Str', old(name)), old(name))"
+AQA_ARG = "ite(old(value) is None, %s, %s + '=' + ite(quote, uf('quote', 'Str', str(old(value))), some(old(value))))" % (AQA_NAME, AQA_NAME)
+AQA_S1 = "old(url).split('#', 1)"
+AQA_HASF = "(len(%s) > 1)" % AQA_S1
+AQA_U1 = "ite(%s, %s[0], old(url))" % (AQA_HASF, AQA_S1)
+AQA_S2 = "%s.split('?', 1)" % AQA_U1
+AQA_HASQ = "(len(%s) > 1)" % AQA_S2
+AQA_U2 = "ite(%s, %s[0], %s)" % (AQA_HASQ, AQA_S2, AQA_U1)
+AQA_QUERY = "ite(%s and %s[1] != '', %s[1] + ('&' + %s), %s)" % (AQA_HASQ, AQA_S2, AQA_S2, AQA_ARG, AQA_ARG)
+AQA_HEAD = "%s + ('?' + %s)" % (AQA_U2, AQA_QUERY)
+AQA_RESULT = "result == ite(%s, %s + ('#' + %s[1]), %s)" % (AQA_HASF, AQA_HEAD, AQA_S1, AQA_HEAD)
+
 MODULE = {
     "file": "ural/utils.py",
     "bound": {"m": "Int"},
-    "consts": {"SLASH_SQUEEZE_RE": ("Opaque", "Obj")},
+    "consts": {"SLASH_SQUEEZE_RE": ("Opaque", "Obj"), "PROTOCOL_RE": ("Opaque", "Obj")},
+    "obj_attrs": {"path": "Str"},
     "library": {
+        "unshadowed_quote": {"params": ["string"], "types": {"string": "Str"}, "returns": "Str", "ensures": ["result == uf('quote', 'Str', string)"]},
+        "re.match": {"params": ["pattern", "string"], "types": {"pattern": "Obj", "string": "Str"}, "returns": "Opt[Obj]", "result_meta": {"always_truthy": True},
+                     "ensures": ["result == uf('re_match', 'Opt[Obj]', pattern, string)"]},
+        "urlsplit": {"params": ["url"], "types": {"url": "Str"}, "returns": "Obj", "raises": {"ValueError": None}, "ensures": ["result == uf('urlsplit', 'Obj', url)"]},
         "Obj.sub": {"params": ["repl", "string"], "receiver": "pattern", "types": {"pattern": "Obj", "repl": "Str", "string": "Str"},
                     "returns": "Str", "ensures": ["result == uf('re_sub', 'Str', pattern, repl, string)"]},
     },
@@ -24,9 +43,35 @@ MODULE = {
             # total for every combination of absent parts (a URL may carry userinfo or a port and no host)
             "ensures": [],
         },
+        "add_query_argument": {
+            "types": {"url": "Str", "name": "Str", "value": "Opt[Str]", "quote": "Bool", "arg": "Str", "query": "Opt[Str]", "fragment": "Opt[Str]", "s": "Seq[Str]"},
+            "returns": "Str",
+            # value: None (a bare key) or a str; other value types go through str() when quote=True (bounded check)
+            "ensures": [AQA_RESULT,
+                        # no query, no fragment: the item is simply appended after a '?'
+                        "implies('#' not in old(url) and '?' not in old(url), result == old(url) + '?' + %s)" % AQA_ARG,
+                        # a query, no fragment: '&' + item is appended (the item alone after an empty query 'u?'); every existing character stays in place
+                        "implies('#' not in old(url) and '?' in old(url) and %s[1] != '', result == old(url) + '&' + %s)" % (AQA_S2, AQA_ARG),
+                        "implies('#' not in old(url) and '?' in old(url) and %s[1] == '', result == old(url) + %s)" % (AQA_S2, AQA_ARG),
+                        # a fragment: the item is inserted in front of the first '#', what follows it is untouched
+                        "implies('#' in old(url) and '?' not in %s[0], result == %s[0] + '?' + %s + '#' + %s[1])" % (AQA_S1, AQA_S1, AQA_ARG, AQA_S1),
+                        "implies('#' in old(url), old(url) == %s[0] + '#' + %s[1] and '#' not in %s[0])" % (AQA_S1, AQA_S1, AQA_S1)],
+        },
+        "safe_urlsplit": {
+            # the str entry point (a SplitResult argument is returned as is)
+            "types": {"url": "Str", "scheme": "Str", "splitted": "Obj"}, "returns": "Obj", "isinstance": {"url,SplitResult": False},
+            "raises": {"ValueError": None},
+            "ensures": ["result == uf('urlsplit', 'Obj', ite(uf('re_match', 'Opt[Obj]', PROTOCOL_RE, old(url)) is not None, old(url), scheme + '://' + old(url)))"],
+        },
+        "urlpathsplit": {
+            "types": {"url": "Str", "parsed": "Obj"}, "returns": "Seq[Str]", "raises": {"ValueError": None},
+            # the segments of the path the standard parser sees once a scheme is ensured
+            "ensures": ["result == uf('pathsplit', 'Seq[Str]', uf('urlsplit', 'Obj', ite(uf('re_match', 'Opt[Obj]', PROTOCOL_RE, url) is not None, url, 'http://' + url)).path)"],
+        },
         "pathsplit": {
             "types": {"urlpath": "Str"}, "returns": "Seq[Str]",
             "ensures": ["(len(result) == 0) == (old(urlpath).strip() == '' or old(urlpath).strip() == '/')"],
+            "assumed_ensures": ["result == uf('pathsplit', 'Seq[Str]', old(urlpath))"],
         },
     },
 }
